@@ -455,6 +455,12 @@ func (e *FnEnc) applyContract(c *FuncContract, calleeName string, calleePkg *typ
 		ts, all = e.modTargets(c, env)
 		e.st = save
 	}()
+	if !c.HasMod {
+		// a contract without a modifies clause promises nothing about the heap (and its frame is not checked
+		// on the callee side): the caller must assume everything may change
+		all = true
+		e.note("contract of " + calleeName + " has no modifies clause: the call havocs the heap")
+	}
 	if all {
 		e.havocAll()
 	} else {
